@@ -24,7 +24,7 @@ type c11Case struct {
 
 func checkC11(c *Ctx) {
 	reps := c.Pick(40, 300)
-	c.rule = fmt.Sprintf("repetition monitor: every program of a corpus aimed at hash-map iteration sites (dictionary equality / 包含 / 寻找 with >=3 keys, also with entries mixing equal, different, ill-typed and non-comparable values (objects) so that two entries could each decide the outcome, 解析JSON of objects with >=5 keys then display / iterate / regenerate, import-all with colliding export names across two modules, selective imports, a standard library imported twice / item by item / from two modules of one program, objects of types with many defaults, input expressions that fail in two places, uncaught errors raised inside nested calls, five HTTP request / response shapes - distinct names, names differing only in letter case in query and header map, repeated names, a response with case-variant header keys, a response whose default headers are extended - each served repeatedly through ZnHttpHandler) plus samples of the generated corpora of C01/C02/C07/C09/C12 is executed %d times in one process; result, display trace and error text must be identical across repetitions. Order monitor: the left dictionary of a comparison (为 / 不为 / 包含 / 寻找) is rebuilt in four insertion orders of the same entries (one of them an object, one differing), the answer - a value or an error code - must be the same for all. A canary ranges over a 6-key Go map the same number of times and records how many distinct orders it saw (shows that the runtime's randomisation was live). distinct_nontrivial = distinct (family, program) with at least one dictionary / module / object in play", reps)
+	c.rule = fmt.Sprintf("repetition monitor: every program of a corpus aimed at hash-map iteration sites (dictionary equality / 包含 / 寻找 with >=3 keys, also with entries mixing equal, different, ill-typed and non-comparable values (objects) so that two entries could each decide the outcome, 解析JSON of objects with >=5 keys then display / iterate / regenerate, import-all with colliding export names across two modules, selective imports, a standard library imported twice / item by item / from two modules of one program, objects of types with many defaults, library operations that fail half way followed by ones that succeed (生成JSON / 解析JSON / %), input expressions that fail in two places, uncaught errors raised inside nested calls, five HTTP request / response shapes - distinct names, names differing only in letter case in query and header map, repeated names, a response with case-variant header keys, a response whose default headers are extended - each served repeatedly through ZnHttpHandler) plus samples of the generated corpora of C01/C02/C07/C09/C12 is executed %d times in one process; result, display trace and error text must be identical across repetitions. Order monitor: the left dictionary of a comparison (为 / 不为 / 包含 / 寻找) is rebuilt in four insertion orders of the same entries (one of them an object, one differing), the answer - a value or an error code - must be the same for all. A canary ranges over a 6-key Go map the same number of times and records how many distinct orders it saw (shows that the runtime's randomisation was live). distinct_nontrivial = distinct (family, program) with at least one dictionary / module / object in play", reps)
 	c.assumptions = []string{"each repetition draws fresh hash-map iteration orders from the Go runtime (canary reported in the evidence)", "取随机数 is never called"}
 	rng := c.Rand("c11")
 	cases := []c11Case{}
@@ -36,6 +36,11 @@ func checkC11(c *Ctx) {
 			mut(&r)
 		}
 		cases = append(cases, c11Case{name, r, fam})
+		if d := os.Getenv("VERIF_C11_DUMP"); d != "" && fam == d {
+			f, _ := os.OpenFile("scratch/c11dump.txt", os.O_APPEND|os.O_CREATE|os.O_WRONLY, 0o644)
+			f.WriteString(src + "\n====\n")
+			f.Close()
+		}
 	}
 	// a. dictionary equality / contains / find
 	for n := 3; n <= 8; n++ {
@@ -165,6 +170,24 @@ func checkC11(c *Ctx) {
 		}
 		src := "导入《@JSON》\n输入典\n令文 =（生成JSON：典）\n令回 =（解析JSON：文）\n（显示：回）\n以键、值遍历回：\n\t（显示：键、值）\n（显示：回之所有索引）\n输出（生成JSON：回）\n"
 		add("json-parse", fmt.Sprintf("doc%d", i), src, func(r *Req) { r.Libs = true; r.Inputs = map[string]Val{"典": v} })
+	}
+	// b2. an operation that fails half way, then the same kind of operation succeeding (in the same
+	// run and, because the program is repeated in one process, in the next run): what the failed one
+	// left behind - a partly written buffer, a half-filled table - must not show in any later result
+	{
+		tryM := "如何试写？\n\t输入值\n\t输出（生成JSON：值）\n\n\t拦截异常：\n\t\t输出 “refused”\n如何试读？\n\t输入字\n\t输出（解析JSON：字）\n\n\t拦截异常：\n\t\t输出 “refused”\n如何试排？\n\t输入模、参\n\t输出 模 % 参\n\n\t拦截异常：\n\t\t输出 “refused”\n"
+		fs := []struct{ name, body string }{
+			{"generate/unrepresentable-then-fine", "（显示：（试写：【“名” = “丑”，“坏” = 显示】））\n（显示：（试写：【“名” = “寅”】））\n输出（生成JSON：【“甲” = 【1，2】】）\n"},
+			{"generate/non-finite-then-fine", "令大 = 1.7E+308 * 10\n（显示：（试写：【“a” = 【1，2，“长长长长长长长长”】，“b” = 大】））\n输出（生成JSON：【“c” = 3】）\n"},
+			{"generate/fine-then-uncaught-failure", "（显示：（生成JSON：【“好” = 1】））\n（显示：（生成JSON：【“前” = “缀缀缀”，“坏” = 显示】））\n"},
+			{"generate/nested-failure-then-fine", "定义物类：\n\t其数 = 1\n令物 = （新建物类）\n（显示：（试写：【“a” = 【“深” = 【1，【2，物】】】】））\n（显示：（试写：【】））\n输出（试写：【“z” = 空】）\n"},
+			{"parse/garbage-then-fine", "（显示：（试读：“{\"a\":[1,2,”））\n（显示：（试读：“{\"b\":[3]}”））\n输出（解析JSON：“{\"c\":{\"d\":4}}”）\n"},
+			{"format/failure-then-fine", "（显示：（试排：“甲{}乙{#.2}”、【1，“x”】））\n输出 “甲{}乙{#.2}” % 【1，2】\n"},
+			{"generate-in-loop/alternating", "以序遍历【1，2，3，4，5，6】：\n\t如果 序 % 2 == 1：\n\t\t（显示：（试写：【“序” = 序，“坏” = 试写】））\n\t否则：\n\t\t（显示：（试写：【“序” = 序】））\n输出 0\n"},
+		}
+		for _, f := range fs {
+			add("failure-then-success", f.name, "导入《@JSON》\n"+tryM+f.body, func(r *Req) { r.Libs = true })
+		}
 	}
 	// c. imports: collisions, import-all, selective
 	modA := "如何方法甲？\n\t输出 1\n如何方法乙？\n\t输出 2\n如何方法丙？\n\t输出 3\n定义型甲：\n\t其数 = 1\n定义型乙：\n\t其数 = 2\n（显示：“body-A”）\n"
